@@ -2,7 +2,7 @@
 EXTENDS Deferred, TraceBase
 VARIABLE l
 TInit == l = 1 /\ InitWith(<<>>, TRUE) /\ TLCSet(1, 0)
-Skip == LifeKinds \cup {"blocked", "hget", "hrel", "final", "fut", "starved", "task"}
+Skip == LifeKinds \cup {"blocked", "hget", "hrel", "final", "fut", "starved", "soloyield", "task"}
 \* private mutexes of the queued task runners (guarded<packaged_task>): uncontended by construction
 Private(e) == Len(e.o) >= 5 /\ SubSeq(e.o, 1, 5) = "anon."
 TNext ==
